@@ -1,0 +1,84 @@
+//go:build verif
+
+// Machine-checked contracts (gowp, see /verif/DESIGN.md). Comment-only file:
+// nothing here is compiled into the package.
+
+package isaacdatabase
+
+// ---- C24: pools are first-writer-wins; cleanup keeps recent entries ------------------
+//
+// exfound: outcome of the last PrefixStorage.Exists (1 found, 0 not found, 2 error)
+//@ ghost exfound int
+//@ package github.com/spikeekips/mitum/storage/leveldb
+//@ func (*PrefixStorage).Exists
+//@   trusted
+//@   modifies ghost:exfound
+//@   ensures r1 == nil ==> exfound == ite(r0, 1, 0)
+//@   ensures r1 != nil ==> exfound == 2
+//@ func (*PrefixStorage).Put
+//@   trusted
+//@   modifies *
+//@ package github.com/spikeekips/mitum/isaac/database
+
+// the key of a ballot is a function of its stage point and the suffrage-confirm flag
+// (byte concatenation over fixed-size arrays: outside the verified subset)
+//@ func leveldbBallotKey
+//@   trusted
+//@   pure
+//@ func EncodeFrame
+//@   trusted
+//@   pure
+
+//@ func (*TempPool).SetBallot
+//@   prop C24
+//@   requires db != nil && bl != nil && db.baseLeveldb != nil
+//@   callsite Put requires a0 == key && exfound == 0
+//@   ensures [stored-flag] r1 == nil && r0 ==> exfound == 0
+
+//@ func leveldbProposalKey
+//@   trusted
+//@   pure
+//@ func leveldbProposalPointKey
+//@   trusted
+//@   pure
+//@ package github.com/spikeekips/mitum/storage/leveldb
+//@ func (*PrefixStorage).Batch
+//@   trusted
+//@   modifies *
+//@ func (*PrefixStorage).NewBatch
+//@   trusted
+//@   ensures r0 != nil
+//@ func (*PrefixStorageBatch).Put
+//@   trusted
+//@ func (*PrefixStorageBatch).Delete
+//@   trusted
+//@ func (*PrefixStorageBatch).Reset
+//@   trusted
+//@ func (*PrefixStorageBatch).Len
+//@   trusted
+//@   pure
+//@ package github.com/spikeekips/mitum/isaac/database
+
+// a proposal is written (both records, one batch) only when no proposal with
+// the same fact is stored
+//@ func (*TempPool).SetProposal
+//@   prop C24
+//@   requires db != nil && pr != nil && db.baseLeveldb != nil && pr.Fact() != nil && pr.ProposalFact() != nil
+//@   callsite Put requires exfound == 0
+//@   callsite Batch requires exfound == 0
+//@   ensures [stored-flag] r1 == nil && r0 ==> exfound == 0
+
+// the lookup reads the record under the key SetBallot writes for that stage
+// point and flag
+//@ package github.com/spikeekips/mitum/storage/leveldb
+//@ func (*PrefixStorage).Get
+//@   trusted
+//@   pure
+//@ package github.com/spikeekips/mitum/isaac/database
+//@ func ReadDecodeFrame
+//@   trusted
+//@   modifies *
+//@ func (*TempPool).Ballot
+//@   prop C24
+//@   requires db != nil && db.baseLeveldb != nil
+//@   callsite Get requires a0 == leveldbBallotKey(base.NewStagePoint(point, stage), isSuffrageConfirm)
